@@ -58,7 +58,13 @@ func (m *RecorderModel) Invoke(x *Exec, method string, args []Value, c *ssa.Call
 			}
 			switch u := t.Underlying().(type) {
 			case *types.Slice:
-				return SliceV{Atom: x.B.App(name, smt.SStr, ts...)}
+				r := x.B.App(name, smt.SStr, ts...)
+				if m.name == "hasher" && method == "CreateID" {
+					// guarantee of the CreateID kernel (C16 an id is never empty): the id hasher
+					// is every function with non-empty results
+					x.Assume(x.B.And(x.B.Gt(x.atomLen(r), x.B.Int(0)), x.B.Not(x.B.Eq(r, x.B.StrConst("")))), "data id not empty (CreateID kernel)")
+				}
+				return SliceV{Atom: r}
 			case *types.Basic:
 				switch {
 				case u.Info()&types.IsString != 0:
@@ -213,6 +219,35 @@ func (x *Exec) zzverifStub(name string, c *CallCtx) (Value, bool) {
 		}
 		x.store(unwrapIface(a[2]), x.Env.Calls[i].Rets[j])
 		return nil, true
+	case "CallUnexported":
+		// CallUnexported(pkgPath, funcName, args...): executes an unexported function of another
+		// (imported, hence loaded) package of /repo from its SSA - the real code, reached without
+		// a hook in /repo
+		pkg := x.constStr(a[0], "package path")
+		fname := x.constStr(a[1], "function name")
+		fn := x.P.FindFunc(pkg, fname)
+		if fn == nil {
+			x.Unsupported("CallUnexported: %s.%s not found (is the package imported by the harness?)", pkg, fname)
+		}
+		var args []Value
+		if sl, ok := a[2].(SliceV); ok && !sl.Nil {
+			args = x.sliceElems(sl)
+		}
+		ps := fn.Signature.Params()
+		for i := range args {
+			// variadic interface{} elements: unwrap unless the parameter itself is an interface
+			if i < ps.Len() && !types.IsInterface(ps.At(i).Type()) {
+				args[i] = unwrapIface(args[i])
+			}
+		}
+		r := x.CallFunction(fn, args, nil)
+		if r == nil {
+			return nil, true
+		}
+		if tv, ok := r.(TupleV); ok {
+			return tv[len(tv)-1], true
+		}
+		return r, true
 	case "SameObject":
 		return BoolV{B.Bool(x.identityOf(a[0]) == x.identityOf(a[1]))}, true
 	case "SerializedExactly":
